@@ -95,10 +95,14 @@ structure Net where
   w : List Rat
   total : Rat
   mean : Rat
+  /-- vertex attribute `node_weight_nsi` of the embedded igraph object: absent on a
+  graph the adjacency setter has just created; written by `save`; whatever the
+  object handed to `FromIGraph` / read by `Load` carried -/
+  gvw : Option (List Rat) := none
   deriving DecidableEq, Repr
 
 def Net.blank (directed : Bool) (n : Nat) : Net :=
-  ⟨directed, n, 0, 0, [], [], none, [], 0, 0⟩
+  ⟨directed, n, 0, 0, [], [], none, [], 0, 0, none⟩
 
 def Net.at (net : Net) (i j : Nat) : Int :=
   match net.spA[i]? with
@@ -121,8 +125,9 @@ def setAdjacency (net : Net) (s : Sparse) : Except Err Net :=
         spA := (List.range n).map fun i => (List.range n).map fun j => valAt s.ents i j
         density := linkDensity nl n
         nLinks := if net.directed then nl else nl / 2      -- n_links //= 2
-        graph := graphEdges net.directed n edges
-        eattr := none }
+        graph := graphEdges net.directed n edges   -- a new igraph object:
+        eattr := none                              -- no edge attributes,
+        gvw := none }                              -- no vertex attributes
 
 /-- `node_weights.setter` (network.py:464-494) -/
 def setWeights (net : Net) (w : Option (List Rat)) : Except Err Net :=
@@ -226,7 +231,7 @@ structure IGraph where
 def fromIGraph (g : IGraph) : Except Err Net := do
   let edges' := if g.directed then g.edges else g.edges ++ g.edges.map swap
   let net ← init g.directed (.sparse (cooOnes g.n edges')) g.vw
-  pure { net with graph := g.edges, eattr := g.ea }      -- net.graph = graph
+  pure { net with graph := g.edges, eattr := g.ea, gvw := g.vw }      -- net.graph = graph
 
 /-- what `save` hands to `igraph.Graph.write`: the embedded graph with the node
 weights stored as vertex attribute `node_weight_nsi` -/
@@ -241,6 +246,58 @@ def saveLoad (store : IGraph → IGraph) (net : Net) : Except Err Net :=
 underscores from attribute names, so neither `node_weight_nsi` nor the link
 attribute is found under its name after reading -/
 def gmlStore (g : IGraph) : IGraph := { g with vw := none, ea := none }
+
+/-! ### operations on a live object; histories -/
+
+/-- the embedded igraph object `net.graph` with everything it carries -/
+def graphOf (net : Net) : IGraph :=
+  ⟨net.N, net.directed, net.graph, net.gvw, net.eattr⟩
+
+/-- `save(filename, format)` (network.py:520-567): the node weights are stored on
+the embedded graph object — a side effect that stays on the live object — and
+that graph is written.  Returns the object afterwards and what was written. -/
+def save (net : Net) : Net × IGraph :=
+  let net' := { net with gvw := some net.w }
+  (net', graphOf net')
+
+/-- `del_link_attribute(name)` -/
+def delLinkAttr (net : Net) : Net := { net with eattr := none }
+
+/-- one statement of a history on a live object -/
+inductive Op where
+  /-- `net.node_weights = w` -/
+  | setW (w : Option (List Rat))
+  /-- `net.set_link_attribute(name, V)` -/
+  | setAttr (v : Nat → Nat → Rat)
+  /-- `net.del_link_attribute(name)` -/
+  | delAttr
+  /-- `net.adjacency = A` -/
+  | setAdj (s : Sparse)
+  /-- `net.save(f, fmt)` (the file is not used) -/
+  | save
+  /-- `net.save(f, fmt); net = Network.Load(f, fmt)` -/
+  | reload
+  /-- `net = net.copy()` -/
+  | copy
+  /-- `net = Network.FromIGraph(net.graph)` -/
+  | regraph
+
+def step (store : IGraph → IGraph) (net : Net) : Op → Except Err Net
+  | .setW w => setWeights net w
+  | .setAttr v => .ok (setLinkAttr net v)
+  | .delAttr => .ok (delLinkAttr net)
+  | .setAdj s => setAdjacency net s
+  | .save => .ok (save net).1
+  | .reload => fromIGraph (store (save net).2)
+  | .copy => copy net
+  | .regraph => fromIGraph (graphOf net)
+
+/-- a history: the statements executed in order, each on the object the previous one left -/
+def run (store : IGraph → IGraph) (net : Net) : List Op → Except Err Net
+  | [] => .ok net
+  | op :: ops => match step store net op with
+    | .ok net' => run store net' ops
+    | .error e => .error e
 
 /-- `graph.get_adjacency()` -/
 def igAdj (g : IGraph) (i j : Nat) : Int :=
@@ -261,13 +318,34 @@ def loadViaAdjacency (g : IGraph) (geoW : Option (Option (List Rat))) : Except E
   let net ← init g.directed (.sparse (ofDenseMat g.n g.n (igAdj g))) none
   let net ← assignWeights net geoW
   let net ← assignWeights net (g.vw.map some)       -- if "node_weight_nsi" in attribute names
-  pure { net with graph := g.edges, eattr := g.ea }  -- net.graph = graph
+  pure { net with graph := g.edges, eattr := g.ea, gvw := g.vw }  -- net.graph = graph
 
-/-- `GeoNetwork.set_node_weight_type` (geo_network.py:90-118): 1 = "surface",
-2 = "irrigation", anything else = unit weights -/
+def pow2 (k : Int) : Rat :=
+  if k ≥ 0 then ((2 ^ k.toNat : Nat) : Rat) else 1 / ((2 ^ (-k).toNat : Nat) : Rat)
+
+/-- IEEE-754 single precision (normal range): the `float32` nearest to a rational,
+ties to even.  `grid.cos_lat()` is a `float32` array and `np.square` of it is the
+correctly rounded product in `float32`. -/
+def roundF32 (q : Rat) : Rat :=
+  if q == 0 then 0 else
+    let a : Rat := if q < 0 then -q else q
+    let e0 : Int := (Nat.log2 a.num.natAbs : Int) - (Nat.log2 a.den : Int)
+    let e : Int := if a < pow2 e0 then e0 - 1 else e0        -- 2^e ≤ a < 2^(e+1)
+    let s : Int := 23 - e
+    let x : Rat := a * pow2 s                                -- 2^23 ≤ x < 2^24
+    let f : Int := x.floor
+    let r : Rat := x - (f : Rat)
+    let m : Int := if r < 1 / 2 then f else if r > 1 / 2 then f + 1
+                   else if f % 2 == 0 then f else f + 1
+    let v : Rat := (m : Rat) / pow2 s
+    if q < 0 then -v else v
+
+/-- `GeoNetwork.set_node_weight_type` (geo_network.py:90-118): 1 = "surface"
+(`cos_lat`, a `float32` array handed over as exact rationals), 2 = "irrigation"
+(`np.square(cos_lat)`, rounded to `float32`), anything else = unit weights -/
 def geoWeights (cosLat : List Rat) (wtype : Nat) : Option (List Rat) :=
   if wtype == 1 then some cosLat
-  else if wtype == 2 then some (cosLat.map fun c => c * c)
+  else if wtype == 2 then some (cosLat.map fun c => roundF32 (c * c))
   else none
 
 /-- `GeoNetwork.__init__` -/
